@@ -1357,63 +1357,105 @@ def dagger_inverse_checks(ctx, sf):
 
 # ------------------------------------------------------------------ time-domain programs through the engine
 
+TDM_ARRIVALS = ["rolled", "unroll", "unroll2", "space", "space2"]
+TDM_OPTIONS = [{}, dict(space_unroll=True), dict(shots=1), dict(shots=2), dict(crop=True), dict(space_unroll=True, crop=True),
+               dict(space_unroll=True, shots=2)]
+
+
+def tdm_full_snapshot(t13, prog):
+    """everything the user can see of a TDMProgram: circuits (canonical + object identities), rolled / unrolled /
+    space-unrolled caches, register, reg_refs (keys, activity), subsystem counts, unroll flags and shot count,
+    tdm_params, loop variables, options"""
+    d = t13.snapshot(prog)
+    d.update(register=[int(r.ind) for r in prog.register], num_subsystems=int(prog.num_subsystems),
+             is_unrolled=bool(prog.is_unrolled), timebins=int(prog.timebins), N=[int(x) for x in prog.N],
+             tdm_params=[[t13.canon_par(v) for v in a] for a in prog.tdm_params], loop_vars=[str(v) for v in prog.loop_vars],
+             run_options=repr(prog.run_options), backend_options=repr(prog.backend_options),
+             circuit_ids=None if prog.circuit is None else [(id(c), id(c.op), id(c.op.p)) for c in prog.circuit],
+             rolled_ids=None if prog.rolled_circuit is None else [(id(c), id(c.op), id(c.op.p), tuple(map(repr, c.op.p)))
+                                                                 for c in prog.rolled_circuit],
+             reg_ref_ids=[(int(k), id(r)) for k, r in prog.reg_refs.items()],
+             init_reg_refs=[(int(k), bool(r.active)) for k, r in prog.init_reg_refs.items()],
+             unused=sorted(int(x) for x in prog.unused_indices))
+    return d
+
+
+def tdm_one(ctx, sf, t13, spec, arrival, kw, share):
+    """one (arrival state, run options) combination: three runs (same engine, same engine after reset, new engine); the
+    user's program must be exactly as the user left it after each of them, and the engine's record of the run program
+    must not grow from run to run"""
+    rp = dict(kind="tdm", spec=spec, arrival=arrival, kw=kw, share=share)
+    ctx.count("tdm", dict(N=spec["N"], arrival=arrival, kw=kw), True)
+    ctx.oracle_cases += 1
+    sel_ok = kw.get("shots", 1) == 1 and not arrival.endswith("2")
+    spec = dict(spec, ops=[dict(o, s=(o.get("s") if sel_ok else None)) for o in spec["ops"]])
+    try:
+        prog = t13.build(sf, spec, share=share)
+        if arrival.startswith("unroll"):
+            prog.unroll(shots=2 if arrival.endswith("2") else 1)
+        elif arrival.startswith("space"):
+            prog.space_unroll(shots=2 if arrival.endswith("2") else 1)
+    except Exception as e:  # noqa: BLE001
+        ctx.fail(f"tdm-build-raised:{type(e).__name__}", f"building a TDMProgram ({arrival}) raised {type(e).__name__}: {e}", rp)
+        return
+    before = tdm_full_snapshot(t13, prog)
+    before["locked"] = True          # running locks the program (documented)
+    eng = sf.Engine("gaussian")
+    first, rec = None, []
+    for k, how in enumerate(("first run", "second run after reset", "third run on a new engine")):
+        if k == 1:
+            try:
+                eng.reset()
+            except Exception:  # noqa: BLE001   (nothing was initialised when the first run was refused)
+                eng = sf.Engine("gaussian")
+        if k == 2:
+            eng = sf.Engine("gaussian")
+        try:
+            r = eng.run(prog, **kw)
+            out = ("ok", np.asarray(r.samples, dtype=float))
+            rec.append((len(eng.run_progs[-1].circuit), sorted(int(x) for x in eng.run_progs[-1].reg_refs), len(eng.run_progs)))
+        except Exception as e:  # noqa: BLE001
+            out = (type(e).__name__, None)
+        after = tdm_full_snapshot(t13, prog)
+        d = sorted(kk for kk in before if before[kk] != after[kk])
+        if d:
+            ctx.fail("tdm-program-mutated:" + ",".join(d), f"{how} of a TDMProgram that arrived '{arrival}' with options {kw} "
+                     f"({out[0]}) changed {d}: e.g. {d[0]} {str(before[d[0]])[:80]} -> {str(after[d[0]])[:80]}", rp)
+            return
+        if first is None:
+            first = out
+        elif out[0] != first[0] or (out[1] is not None and (out[1].shape != first[1].shape or
+                                                              (sel_ok and not np.allclose(out[1], first[1], atol=1e-9)))):
+            ctx.fail("tdm-rerun-differs", f"{how} of a TDMProgram ('{arrival}', {kw}): {out[0]} "
+                     f"{None if out[1] is None else out[1].shape} vs first run {first[0]} {None if first[1] is None else first[1].shape}", rp)
+            return
+    if len(set(map(repr, rec))) > 1:
+        ctx.fail("tdm-run_progs-grow", f"Engine.run_progs[-1] of a TDMProgram ('{arrival}', {kw}) differs from run to run "
+                 f"(commands, reg_refs keys, length): {rec}", rp)
+
+
 def tdm_checks(ctx, sf, rng):
-    """TDM path of the engine (`get_tdm_options`, unroll by the engine, roll-back): the user's TDMProgram is the same
-    before and after `run` (rolled/unrolled state, circuits, shot count, RegRefs, operation objects and their
-    parameters) and a second run -- same engine after reset, or a new engine -- gives the same samples and state"""
+    """TDM path of the engine (`get_tdm_options`, unroll / space-unroll by the engine, roll-back), ENUMERATED: arrival
+    state in {rolled, unroll(), unroll(shots=2), space_unroll(), space_unroll(shots=2)} x run options in {default,
+    space_unroll, shots 1 / 2, crop, space_unroll+crop, space_unroll+shots 2} x three runs."""
     from lib import tdm_c13 as t13
-    for case in range(ctx.n(4, 16)):
-        N = rng.choice([[1], [2], [1, 2]])
+    specs = []
+    for N in ([2], [1, 2]) if ctx.tier == "quick" else ([1], [2], [1, 2], [2, 1]):
         C = sum(N)
-        T = rng.randint(2, 4)
+        T = 2 if ctx.tier == "quick" else rng.randint(2, 3)
         sel = rng.choice([0.25, -0.5, 0.125])
-        ops_ = [dict(cls="Sgate", regs=[C - 1], pars=["p0", 0.0]),
-                dict(cls="Rgate", regs=[C - 1], pars=["p1"], d=rng.random() < 0.5)]
+        ops_ = [dict(cls="Sgate", regs=[C - 1], pars=["p0", 0.0]), dict(cls="Rgate", regs=[C - 1], pars=["p1"], d=rng.random() < 0.5)]
         if C >= 2:
             ops_.append(dict(cls="BSgate", regs=[C - 2, C - 1], pars=[0.375, "p1"], d=rng.random() < 0.5))
         ops_.append(dict(cls="MeasureHomodyne", regs=[0], pars=[0.0 if rng.random() < 0.5 else "p1"], s=sel))
-        starts = t13.band_starts(N)
-        for b in starts[1:]:
+        for b in t13.band_starts(N)[1:]:
             ops_.append(dict(cls="MeasureHomodyne", regs=[b], pars=[0.25], s=sel))
-        spec = dict(N=N, shift="default", T=T, ops=ops_,
-                    params=[[round(0.1 * (i + 1), 3) for i in range(T)], [round(0.2 * (i + 1) - 0.3, 3) for i in range(T)]])
-        pre = rng.choice(["rolled", "rolled", "unrolled", "space"])
-        kw = rng.choice([{}, {}, dict(shots=2)]) if pre == "rolled" else {}
-        if kw:      # several shots exclude post-selection: outcomes are random, only shapes are compared
-            for o in spec["ops"]:
-                o["s"] = None
-        rp = dict(kind="tdm", spec=spec, pre=pre, kw=kw)
-        ctx.count("tdm", dict(spec=spec, pre=pre, kw=kw), True)
-        ctx.oracle_cases += 1
-        try:
-            prog = t13.build(sf, spec, share=rng.random() < 0.5)
-            if pre == "unrolled":
-                prog.unroll(shots=1)
-            elif pre == "space":
-                prog.space_unroll(shots=1)
-            before, deep = t13.snapshot(prog), er.snapshot(prog)
-            before["locked"] = True      # running locks the program (documented)
-            eng = sf.Engine("gaussian")
-            r1 = eng.run(prog, **kw)
-            after, deep2 = t13.snapshot(prog), er.snapshot(prog)
-            d = [k for k in before if before[k] != after[k]] + er.snap_diff(deep, deep2)
-            if d:
-                ctx.fail("tdm-program-mutated:" + ",".join(sorted(set(d))), f"running a TDMProgram given {pre} ({kw}) changed {sorted(set(d))}", rp)
-                continue
-            eng.reset()
-            r2 = eng.run(prog, **kw)
-            r3 = sf.Engine("gaussian").run(prog, **kw)
-            s1 = np.asarray(r1.samples, dtype=float)
-            for name, r in (("after reset", r2), ("on a new engine", r3)):
-                sx = np.asarray(r.samples, dtype=float)
-                if sx.shape != s1.shape or (not kw and not np.allclose(sx, s1, atol=1e-9)):
-                    ctx.fail("tdm-rerun-differs", f"second run of the same TDMProgram {name}: samples {sx.tolist()} vs {s1.tolist()}", rp)
-                elif not kw and er.state_dist(er.state_data("gaussian", r.state), er.state_data("gaussian", r1.state)) > STATE_TOL:
-                    ctx.fail("tdm-rerun-differs:state", f"second run of the same TDMProgram {name} ends in another state", rp)
-            if t13.snapshot(prog) != after:
-                ctx.fail("tdm-program-mutated:second-run", "the second and third run changed the TDMProgram", rp)
-        except Exception as e:  # noqa: BLE001
-            ctx.fail(f"tdm-run-raised:{type(e).__name__}", f"TDMProgram given {pre} ({kw}): {type(e).__name__}: {e}", rp)
+        specs.append(dict(N=N, shift="default", T=T, ops=ops_,
+                          params=[[round(0.1 * (i + 1), 3) for i in range(T)], [round(0.2 * (i + 1) - 0.3, 3) for i in range(T)]]))
+    for si, spec in enumerate(specs):
+        for arrival in TDM_ARRIVALS:
+            for kw in TDM_OPTIONS:
+                tdm_one(ctx, sf, t13, spec, arrival, dict(kw), share=bool((si + len(arrival)) % 2))
 
 
 # ------------------------------------------------------------------ corpus, run, replay
@@ -1482,8 +1524,8 @@ def replay(ctx, rp):
     n0 = len(ctx.failures)
     ctx.proof_ok = False
     if rp["kind"] == "tdm":
-        import random
-        tdm_checks(ctx, sf, random.Random(0))
+        from lib import tdm_c13 as t13
+        tdm_one(ctx, sf, t13, rp["spec"], rp.get("arrival", "rolled"), dict(rp.get("kw") or {}), bool(rp.get("share")))
     elif rp["kind"] == "xback":
         cross_backend_check(ctx, sf, rp["spec"])
     elif rp["kind"] == "session":
